@@ -66,6 +66,10 @@ def c14_1(ctx: Ctx) -> RuleResult:
                 root_ = n.ast.iter if n.kind == "iter" else (n.ast.context_expr if n.kind == "with" else n.ast)
                 if root_ is not None and walrus_binds_before(root_, use):
                     continue
+                # a capture of the case pattern read in the guard of the same case: the pattern is matched first
+                if n.kind == "case" and n.ast.guard is not None and any(x is use for x in ast.walk(n.ast.guard)) and any(
+                        d.var == v and d.kind == "match" for d in df.node_defs.get(n, [])):
+                    continue
                 # candidate: flow-insensitively maybe unbound; look for a feasible path
                 if pf is None:
                     pf = PathFinder(cfg, df)
